@@ -23,14 +23,17 @@ pub struct Switches {
 }
 
 impl Switches {
+    /// The switches of the findings that are still listed as known. (Single-statement if/else
+    /// branches and mixed operator precedence were repaired by fix: commits, so their switches
+    /// are off and the random generators produce those constructs freely again.)
     pub fn all_on() -> Switches {
         Switches {
             paren_binop_rhs_of_assignment: true,
-            blocks_only_for_if_else: true,
+            blocks_only_for_if_else: false,
             no_operands_after_gphase: true,
             no_empty_stmt_at_file_level: true,
             alias_only_in_item_mode: true,
-            paren_mixed_precedence: true,
+            paren_mixed_precedence: false,
             avoided: 0,
         }
     }
